@@ -4,6 +4,7 @@
    Microsoft unwind procedure as transcribed by pe-unwind-info's own unwind_frame (the
    specification side of C03). *)
 From FH Require Export Word X86 Unwinder.
+From FH Require Import Consts.
 Open Scope N_scope.
 
 (* PE register numbers -> framehop's Reg (convert_pe_register) *)
@@ -271,7 +272,8 @@ Definition resolve_operation (u : uinfo) (rg : regs) (m : mem) (o : uop) : opres
 
 (* ---------- x86_64/pe.rs: PeUnwinding::unwind_frame ---------- *)
 (* the chained infos, walked with core::iter::successors: at most [fuel] = CHAIN_LIMIT infos *)
-Definition CHAIN_LIMIT : nat := 32.
+(* regenerated from x86_64/pe.rs on every run (Generated/Consts.v PE_CHAIN_LIMIT); 32 = RtlVirtualUnwind's own limit *)
+Definition CHAIN_LIMIT : nat := match PE_CHAIN_LIMIT with Some n => N.to_nat n | None => 32 end.
 Fixpoint chain_infos (fuel : nat) (pe : pe_data) (u : uinfo) : res (option (list uinfo)) :=
   match fuel with
   | O => Ok None                      (* more than CHAINED_INFO_LIMIT infos: UnwindInfoParseError (fix for S11: was a hang) *)
